@@ -145,7 +145,8 @@ Cons(m, g, ev) ==
             [] o.op = "execute"  -> ExecsConfigured(g) =>
                                       (Holds_(g, o.who, "executor") /\ o.auth /\ o.who \notin g.deny))
     \* nothing empty, short or mismatched goes through
-    [] m = "C09_payload" -> Len(o.metas) = Len(CtxsOf(o)) /\ Payload(g, o, now).ok
+    \* (a descriptor for every context; surplus descriptors authorize nothing and are not judged)
+    [] m = "C09_payload" -> Payload(g, o, now).ok
     \* the admin state and the operation states are what the consumed operations made them
     [] m = "C09_frame" ->
          LET g2 == GNext(g, ev) IN
